@@ -4,7 +4,7 @@
    flight, any enabled one may advance; update_document compares document versions and keeps base_dict).
    `lastword w u` is what the client shows for u (the most recent publishDiagnostics, by provenance),
    `expected w u` what the property demands, `pubval w u` what doc_state would publish now. *)
-Require Import Base Server ServerProofs ServerSeq ServerConc ServerClose ServerVer C09Batch C09BatchProofs C09Seq C09SeqProofs C09DictLock Tables_c09handlers C09Handlers C09Race C09RaceProofs C09RaceFamA C09RaceFamB C09RaceAll.
+Require Import Base Server ServerProofs ServerSeq ServerConc ServerClose ServerVer C09Batch C09BatchProofs C09Seq C09SeqProofs C09DictLock Tables_c09handlers C09Handlers C09Race C09RaceProofs C09RaceFamA C09RaceFamB C09RaceAll C09RaceGen.
 
 (* ================================================================================================
    What does NOT hold (each with a concrete schedule on the faithful model; replayed on the real
@@ -718,3 +718,146 @@ Example C09_dictionary_race_shape :
       = mkflags false true false false false /\
     freshb (y_world y) uA = false.
 Proof. exact dict_race_shape. Qed.
+
+(* ================================================================================================
+   Phase 6: the shape for ARBITRARY histories, by induction over the schedule (Proofs/C09RaceGen.v) - no exploration.
+   Class: `forallb okop h` = the history has no didOpen of a source-code document and no didChangeWatchedFiles
+   (any number of didOpen / didChange / didSave / didClose / HarperAddToUserDict / HarperAddToFileDict / ignore /
+   record / didChangeConfiguration, any documents, up to four in flight); start `race_gen_start w0 u` = the dictionary
+   write lock is free, doc_state holds no source-code document, the text of u's last word is the text doc_state holds.
+   ================================================================================================ *)
+
+(* at the end of EVERY schedule: the text of the last word of u is the text doc_state would publish (ptv), and the text
+   doc_state holds is that of the LAST EFFECTIVE critical section of u in the trace (curt; the initial entry's if none) *)
+Theorem C09_race_text_last :
+  forall w0 h u cs y, race_gen_start w0 u -> forallb okop h = true ->
+  run cs (init h w0) = Some y -> quiescent y ->
+  ptext (lastword (y_world y) u) = ptv (y_world y) u /\
+  forall e, lookup u (s_docs (y_world y)) = Some e -> curt u w0 (xtrace cs (init h w0)) = Some (e_text e).
+Proof. exact race_text_last. Qed.
+Check C09_race_text_last :
+  forall w0 h u cs y, race_gen_start w0 u -> forallb okop h = true ->
+  run cs (init h w0) = Some y -> quiescent y ->
+  ptext (lastword (y_world y) u) = ptv (y_world y) u /\
+  forall e, lookup u (s_docs (y_world y)) = Some e -> curt u w0 (xtrace cs (init h w0)) = Some (e_text e).
+Print Assumptions C09_race_text_last.
+
+(* EXACT for the text component, all histories of the class, all schedules: the last word of a document the client has
+   open carries the newest text IFF the flag `text overtaken` of race_shape is absent and doc_state publishes
+   something for the document.  PARTIAL: one of the five flags, the class above. *)
+Theorem C09_race_text_exact_partial :
+  forall w0 h u cs y cd, race_gen_start w0 u -> forallb okop h = true ->
+  run cs (init h w0) = Some y -> quiescent y ->
+  lookup u (w_open (y_world y)) = Some cd ->
+  (ptext (lastword (y_world y) u) = Some (cd_text cd) <->
+   rf_text (race_shape w0 (y_world y) u (xtrace cs (init h w0))) = false /\ ptv (y_world y) u <> None).
+Proof. exact race_text_exact. Qed.
+Check C09_race_text_exact_partial :
+  forall w0 h u cs y cd, race_gen_start w0 u -> forallb okop h = true ->
+  run cs (init h w0) = Some y -> quiescent y ->
+  lookup u (w_open (y_world y)) = Some cd ->
+  (ptext (lastword (y_world y) u) = Some (cd_text cd) <->
+   rf_text (race_shape w0 (y_world y) u (xtrace cs (init h w0))) = false /\ ptv (y_world y) u <> None).
+Print Assumptions C09_race_text_exact_partial.
+
+(* the 'if' direction of the shape, first flag: text overtaken -> the last word is wrong *)
+Theorem C09_race_text_sound_partial :
+  forall w0 h u cs y cd, race_gen_start w0 u -> forallb okop h = true ->
+  run cs (init h w0) = Some y -> quiescent y ->
+  lookup u (w_open (y_world y)) = Some cd -> kind (cd_lang cd) <> KNone ->
+  rf_text (race_shape w0 (y_world y) u (xtrace cs (init h w0))) = true ->
+  lastword (y_world y) u <> expected (y_world y) u.
+Proof. exact race_text_sound. Qed.
+Check C09_race_text_sound_partial :
+  forall w0 h u cs y cd, race_gen_start w0 u -> forallb okop h = true ->
+  run cs (init h w0) = Some y -> quiescent y ->
+  lookup u (w_open (y_world y)) = Some cd -> kind (cd_lang cd) <> KNone ->
+  rf_text (race_shape w0 (y_world y) u (xtrace cs (init h w0))) = true ->
+  lastword (y_world y) u <> expected (y_world y) u.
+Print Assumptions C09_race_text_sound_partial.
+
+(* the hypotheses are satisfiable on a race that is NOT in the explored family: two didChange and a HarperAddToUserDict
+   naming the same saved file, all three in flight (31 steps); the command's re-read runs its critical section last *)
+Example C09_race_gen_nonvacuous :
+  race_gen_start race_wA uA /\ forallb okop gen_example_h = true /\
+  exists y cd, run gen_example_cs (init gen_example_h race_wA) = Some y /\ quiescent y /\
+    lookup uA (w_open (y_world y)) = Some cd /\ kind (cd_lang cd) <> KNone /\ cd_text cd = tx 2 /\
+    length gen_example_cs = 31 /\
+    race_shape race_wA (y_world y) uA (xtrace gen_example_cs (init gen_example_h race_wA)) = mkflags true false false false false /\
+    ptext (lastword (y_world y) uA) = Some (tx 0).
+Proof. exact race_gen_example. Qed.
+
+(* at the end of EVERY schedule the last word of u is what doc_state would publish now, but for the severity settings
+   (pstrip / psv drop them): the form `lastword = pubval` (C09_batch_serialises) takes for histories with commands and
+   configuration changes - as it stands it is false there: the pull_config of ANY handler moves the severity settings *)
+Theorem C09_race_last_is_doc_state :
+  forall w0 h u cs y, race_gen_start w0 u -> forallb okop h = true ->
+  run cs (init h w0) = Some y -> quiescent y ->
+  pstrip (lastword (y_world y) u) = psv (y_world y) u.
+Proof. exact race_last_is_doc_state. Qed.
+Check C09_race_last_is_doc_state :
+  forall w0 h u cs y, race_gen_start w0 u -> forallb okop h = true ->
+  run cs (init h w0) = Some y -> quiescent y ->
+  pstrip (lastword (y_world y) u) = psv (y_world y) u.
+Print Assumptions C09_race_last_is_doc_state.
+
+(* EXACT (both directions) for four of the five flags, all histories of the class, all schedules: when the last word of u
+   is a diagnostics array a, the flags parser settings / linter settings / severity settings / text of race_shape ARE the
+   comparisons of a's components with the client's current settings resp. the newest client text.
+   PARTIAL: the fifth flag (a dictionary file of u changed after the handler of the last effective critical section
+   read it  <->  a_dict / a_ddict are not the current files) is not covered: it needs the dictionary reads of every
+   handler in flight in the invariant and the monotonicity of the files; with it, and language / ignore list, the 'only
+   if' direction (no flag -> last word right) would follow.  Class as above (no source code, no didChangeWatchedFiles). *)
+Theorem C09_race_flags_exact_partial :
+  forall w0 h u cs y a, race_gen_start w0 u -> forallb okop h = true ->
+  run cs (init h w0) = Some y -> quiescent y ->
+  lastword (y_world y) u = PDiag a ->
+  let f := race_shape w0 (y_world y) u (xtrace cs (init h w0)) in
+  rf_pcfg f = negb (a_pcfg a =? w_ccfg (y_world y)) /\
+  rf_lcfg f = negb (a_lcfg a =? w_ccfg (y_world y)) /\
+  rf_scfg f = negb (a_scfg a =? w_ccfg (y_world y)) /\
+  forall cd, lookup u (w_open (y_world y)) = Some cd -> rf_text f = negb (text_eqb (a_text a) (cd_text cd)).
+Proof. exact race_flags_exact. Qed.
+Check C09_race_flags_exact_partial :
+  forall w0 h u cs y a, race_gen_start w0 u -> forallb okop h = true ->
+  run cs (init h w0) = Some y -> quiescent y ->
+  lastword (y_world y) u = PDiag a ->
+  let f := race_shape w0 (y_world y) u (xtrace cs (init h w0)) in
+  rf_pcfg f = negb (a_pcfg a =? w_ccfg (y_world y)) /\
+  rf_lcfg f = negb (a_lcfg a =? w_ccfg (y_world y)) /\
+  rf_scfg f = negb (a_scfg a =? w_ccfg (y_world y)) /\
+  forall cd, lookup u (w_open (y_world y)) = Some cd -> rf_text f = negb (text_eqb (a_text a) (cd_text cd)).
+Print Assumptions C09_race_flags_exact_partial.
+
+(* the 'if' direction of race_overtaken for four of its five flags: text, parser settings, linter settings or severity
+   settings overtaken -> the last word of a document the client has open (in a language with a parser) is wrong.
+   Any number of commands / configuration changes / didChange / didOpen / didSave / didClose in flight, any documents. *)
+Theorem C09_race_flags_sound_partial :
+  forall w0 h u cs y cd, race_gen_start w0 u -> forallb okop h = true ->
+  run cs (init h w0) = Some y -> quiescent y ->
+  lookup u (w_open (y_world y)) = Some cd -> kind (cd_lang cd) <> KNone ->
+  let f := race_shape w0 (y_world y) u (xtrace cs (init h w0)) in
+  rf_text f || rf_pcfg f || rf_lcfg f || rf_scfg f = true ->
+  lastword (y_world y) u <> expected (y_world y) u.
+Proof. exact race_flags_sound. Qed.
+Check C09_race_flags_sound_partial :
+  forall w0 h u cs y cd, race_gen_start w0 u -> forallb okop h = true ->
+  run cs (init h w0) = Some y -> quiescent y ->
+  lookup u (w_open (y_world y)) = Some cd -> kind (cd_lang cd) <> KNone ->
+  let f := race_shape w0 (y_world y) u (xtrace cs (init h w0)) in
+  rf_text f || rf_pcfg f || rf_lcfg f || rf_scfg f = true ->
+  lastword (y_world y) u <> expected (y_world y) u.
+Print Assumptions C09_race_flags_sound_partial.
+
+(* non-vacuity for the settings flags: a didChange whose configuration round-trip was answered before a
+   didChangeConfiguration arrived goes on only after that handler has finished (23 steps): it writes the old settings
+   back, parses and publishes under them - flags parser settings + severity settings, the last word has exactly these
+   components outdated *)
+Example C09_race_gen_settings_nonvacuous :
+  race_gen_start race_wS uA /\ forallb okop gen_example2_h = true /\
+  exists y cd a, run gen_example2_cs (init gen_example2_h race_wS) = Some y /\ quiescent y /\
+    lookup uA (w_open (y_world y)) = Some cd /\ kind (cd_lang cd) <> KNone /\
+    lastword (y_world y) uA = PDiag a /\
+    race_shape race_wS (y_world y) uA (xtrace gen_example2_cs (init gen_example2_h race_wS)) = mkflags false false true false true /\
+    (a_text a, a_pcfg a, a_lcfg a, a_scfg a, w_ccfg (y_world y)) = (tx 1, 0, 1, 0, 1).
+Proof. exact race_gen_example2. Qed.
